@@ -69,6 +69,7 @@ def run_configs(ctx, configs, nontrivial_keys, rule, assumptions,
     weights = [e[5] if len(e) > 5 else 1.0 for e in configs]
     wsum = sum(weights)
     impl_exc = 0
+    filtered = False
     # World A (Cell API) has no string-hash dependent iteration (insertion
     # ordered dicts, sets of small ints only): it is explored under the first
     # hash seed only; World B configurations are repeated under every seed
@@ -79,6 +80,7 @@ def run_configs(ctx, configs, nontrivial_keys, rule, assumptions,
                          (e[4] if len(e) > 4 else (spec_cls or CellSpec)),
                          CellSpec)]
         if sensitive:
+            filtered = len(sensitive) < len(configs)
             configs = sensitive
     weights = [e[5] if len(e) > 5 else 1.0 for e in configs]
     wsum = sum(weights)
@@ -138,7 +140,11 @@ def run_configs(ctx, configs, nontrivial_keys, rule, assumptions,
     # vacuity guard: a run in which the antecedent never fired proves nothing
     # (only for a silent run: a run that found violations is not vacuous, and
     # a changed implementation may legitimately starve one of the counters)
+    # (nor for a later hash seed that repeats only the World-B subset: the
+    # counters of the World-A configurations were checked under the first)
     for k in nontrivial_keys:
+        if filtered:
+            break
         if cov['nontrivial_counters'].get(k, 0) == 0 and not violations:
             raise statex.HarnessError('vacuous run: counter %s is 0' % k)
     return {'coverage': cov, 'violations': violations,
